@@ -138,6 +138,20 @@ func InOut2(prog string) MachineDef {
 	}
 }
 
+// TwoInputsOneSource: the producer's single output is bonded to BOTH inputs of the consumer, which reads them one
+// after the other: the two pending acknowledgements of the consumer end at the same tick (the producer withdraws
+// one valid line).
+func TwoInputsOneSource() MachineDef {
+	return MachineDef{
+		Procs: []Proc{
+			{Prog: "rset r0 5\nr2owa r0 o0\ninc r0\nj 1\n", N: 0, M: 1},
+			{Prog: "i2rw r1 i0\ni2rw r2 i1\nadd r1 r2\nr2owa r1 o0\nj 0\n", N: 2, M: 1},
+		},
+		Outputs: 1,
+		Bonds:   [][2]string{{"p1i0", "p0o0"}, {"p1i1", "p0o0"}, {"o0", "p1o0"}},
+	}
+}
+
 // --------------------------------------------------- process-wide opcode state
 
 // ResetOpcodeState puts the process-wide opcode singletons (procbuilder.Allopcodes) back into
@@ -441,6 +455,8 @@ func All() []Scenario {
 			Note: "addp on one processor, multp on the other (different singletons); opcode executions are scheduling points"},
 		{Name: "prodcons", Sims: one(ProdCons(), "config:show_io_post"), Ticks: [2]int{4, 6}, Bound: [2]int{2, 4},
 			Note: "producer (r2owa) -> bond -> consumer (i2rw, inc, r2owa) -> BM output"},
+		{Name: "two-inputs-one-source", Sims: one(TwoInputsOneSource(), "config:show_io_post"), Ticks: [2]int{8, 10}, Bound: [2]int{1, 2},
+			Note: "one output bonded to both inputs of a consumer that reads them back to back: two pending acknowledgements end at the same tick"},
 		{Name: "prodcons-opyield", Sims: one(ProdCons()), OpYield: true, Ticks: [2]int{4, 5}, Bound: [2]int{2, 3},
 			Note: "producer/consumer pair, every opcode execution is a scheduling point"},
 		{Name: "twovm-same", Sims: []Sim{{Def: Indep(progB)}, {Def: Indep(progB), Share: 1}}, Ticks: [2]int{2, 3}, Bound: [2]int{2, 3},
